@@ -64,21 +64,24 @@ def r1_guarded_sort(w):
         # nothing sorts: reordering can never happen - the "on" half of the statement is violated
         raise AnchorMissing('no sort call on import items found in typstyle-core')
     kinds = syntax_kind_names(w)
-    for (b, bi, t, p, m) in sites:
+    for (b0, bi0, t0, p, m) in sites:
+        # the function with its boolean helpers expanded (a condition moved into `fn should_sort(..) -> bool` is the same condition); the duplicate
+        # test - the helper that fills a set - stays a call and is judged on its own
+        b, bi, t = _sort_view(w, b0, bi0, t0)
         v = BodyView(w, b)
         # the sorted collection
         coll = v.pv.through(v.pv.origins_operand(t['args'][0]), re.compile(r'DerefMut>::deref_mut$|DerefMut::deref_mut$|::as_mut_slice$|Deref>::deref$'))
-        gs = v.guards(bi)
+        gs = v.guards_ext(bi)
         have = {'flag': None, 'nocomment': None, 'nodup': None}
         others = []
-        for atom, vals, sw in gs:
+        for g in gs:
+            atom, vals, sw = g
             if atom == 'field:' + FLAG:
-                have['flag'] = (vals == {True})
+                have['flag'] = have['flag'] or (vals == {True})
                 continue
             # call atoms: inspect the call itself
-            st = b.blocks[sw]['term']
             matched = False
-            for o in v.pv.peel(v.pv.origins_operand(st['discr'])):
+            for o in v.pv.peel(v.pv.origins_operand(v.guard_operand(g))):
                 if o[0] != 'call':
                     continue
                 ct = v.pv.call_term(o)
@@ -87,10 +90,20 @@ def r1_guarded_sort(w):
                     same = _same_collection(v, ct['args'][0], coll)
                     pred_ok, why = _all_pred_rejects_comments(w, v, ct)
                     if same and pred_ok:
-                        have['nocomment'] = (vals == {True})
+                        have['nocomment'] = have['nocomment'] or (vals == {True})
                         matched = True
                     else:
                         others.append('all(..) over %s with predicate: %s' % ('the item list' if same else 'another collection', why))
+                        matched = True
+                if cp.endswith('Iterator>::any') or cp.endswith('Iterator::any'):
+                    # !items.any(is_comment)
+                    same = _same_collection(v, ct['args'][0], coll)
+                    pred_ok, why = _any_pred_accepts_comments(w, v, ct)
+                    if same and pred_ok:
+                        have['nocomment'] = have['nocomment'] or (vals == {False})
+                        matched = True
+                    else:
+                        others.append('any(..) over %s with predicate: %s' % ('the item list' if same else 'another collection', why))
                         matched = True
                 rid = resolved_id(ct)
                 fb = w.bodies.get(rid)
@@ -98,7 +111,7 @@ def r1_guarded_sort(w):
                     same = _same_collection(v, ct['args'][0], coll) if ct['args'] else False
                     ok, why = _dup_check_sound(w, fb, kinds)
                     if same and ok:
-                        have['nodup'] = (vals == {True})
+                        have['nodup'] = have['nodup'] or (vals == {True})
                         matched = True
                     elif not matched:
                         others.append('%s: %s' % (fb.short, why))
@@ -133,10 +146,11 @@ def r1_guarded_sort(w):
             seen_keys.add(key)
             r.bad(cons, key, why, loc)
     # the duplicate test itself, instance per obligation
-    for (b, bi, t, p, m) in sites:
+    for (b0, bi0, t0, p, m) in sites:
+        b, bi, t = _sort_view(w, b0, bi0, t0)
         v = BodyView(w, b)
-        for atom, vals, sw in v.guards(bi):
-            for o in v.pv.peel(v.pv.origins_operand(b.blocks[sw]['term']['discr'])):
+        for g in v.guards_ext(bi):
+            for o in v.pv.peel(v.pv.origins_operand(v.guard_operand(g))):
                 if o[0] == 'call':
                     fb = w.bodies.get(resolved_id(v.pv.call_term(o)))
                     if fb is not None and fb.locals[0]['ty']['s'] == 'bool' and fb.def_kind == 'Fn':
@@ -147,6 +161,55 @@ def r1_guarded_sort(w):
                             else:
                                 r.bad(cons, '%s|dup|%s' % (fb.short, cons.get('obligation')), why, fb.loc())
     return r
+
+
+_SORT_VIEW = {}
+
+
+def _sort_view(w, b, bi, t):
+    """(body, block, term) of the sort call in the body with its boolean helper functions expanded"""
+    key = (id(w), b.id, bi)
+    if key not in _SORT_VIEW:
+        import inline
+        from rules import c05
+
+        def fills_a_set(cb):
+            own = [x for x in w.bodies.values() if x.id == cb.id or x.id.startswith(cb.id + '::{closure')]
+            return any(re.search(r'::insert$', callee_path(t2) or '') and re.search(r'Hash|BTree', callee_str(t2) or callee_path(t2) or '') for x in own for _, t2 in x.calls())
+
+        def pred(cb, t_, depth):
+            return cb.crate is w.core and cb.locals[0]['ty']['s'] == 'bool' and not c05.is_recursive(w, cb) and not fills_a_set(cb) and not _tests_comment_kinds(w, cb)
+        nb = inline.inline_body(w, b, pred, desugar=False)
+        # the block index of the call is unchanged (blocks are only appended), unless the sort itself was in an expanded part
+        _SORT_VIEW[key] = (nb, bi, nb.blocks[bi]['term'])
+    return _SORT_VIEW[key]
+
+
+def _any_pred_accepts_comments(w, v, ct):
+    """the function / closure passed to any() is the comment-kind test itself"""
+    for a in ct['args'][1:]:
+        if a.get('o') == 'const' and 'fn' in a:
+            fb = w.bodies.get(a['fn']['def']['id'])
+            if fb is not None and _tests_comment_kinds(w, fb):
+                return True, 'comment-kind test'
+            return False, 'function %s is not the comment-kind test' % a['fn']['def']['path']
+        for o in v.pv.peel(v.pv.origins_operand(a)):
+            if o[0] == 'fnitem':
+                fb = w.bodies.get(o[1])
+                if fb is not None and _tests_comment_kinds(w, fb):
+                    return True, 'comment-kind test'
+            if o[0] == 'agg' and v.pv.agg_rvalue(o).get('ak') == 'closure':
+                cb = w.bodies.get(v.pv.agg_rvalue(o)['def']['id'])
+                if cb is None:
+                    return False, 'closure body not found'
+                cv = BodyView(w, cb)
+                ret = cv.pv.peel(cv.pv._origins_local(0, frozenset()))
+                if len(ret) == 1 and next(iter(ret))[0] == 'call':
+                    fb = w.bodies.get(resolved_id(cv.pv.call_term(next(iter(ret)))))
+                    if fb is not None and _tests_comment_kinds(w, fb):
+                        return True, 'comment-kind test'
+                return False, 'closure is not the comment-kind test'
+    return False, 'no predicate argument'
 
 
 def _same_collection(v, operand, coll):
@@ -202,8 +265,119 @@ def _tests_comment_kinds(w, fb):
     return False
 
 
+def _dup_check_iterator_form(w, fb, kinds):
+    """the duplicate test written as `items.iter().filter_map(<bound name of an item>).all(|name| seen.insert(name))`; None when fb has another shape.
+    `all` stops at and answers false for the first `false` of its predicate, answers true after the last item: with the predicate being the insert itself
+    the three control-flow obligations of the loop form hold by the contract of Iterator::all."""
+    v = BodyView(w, fb)
+    rets = {strip_casts(o) for o in v.pv.peel(v.pv._origins_local(0, frozenset()))}
+    if len(rets) != 1 or next(iter(rets))[0] != 'call':
+        return None
+    at = v.pv.call_term(next(iter(rets)))
+    if not re.search(r'Iterator>?::all$', callee_path(at) or '') or len(at['args']) != 2:
+        return None
+    out = []
+
+    def closure_of(op):
+        for o in v.pv.peel(v.pv.origins_operand(op)):
+            if o[0] == 'agg' and v.pv.agg_rvalue(o).get('ak') == 'closure':
+                return w.bodies.get(v.pv.agg_rvalue(o)['def']['id'])
+        return None
+    pb = closure_of(at['args'][1])
+    cons = {'fn': fb.short, 'obligation': 'single-insert', 'form': 'filter_map(bound name).all(insert)'}
+    ok_pred = False
+    if pb is not None:
+        ins = [(bi, t) for bi, t in pb.calls() if (callee_path(t) or '').endswith('::insert') and 'HashSet' in (callee_str(t) or callee_path(t) or '')]
+        pv2 = BodyView(w, pb)
+        if len(ins) == 1 and len(list(pb.calls())) == 1 and not any(blk['term']['t'] == 'switch' for blk in pb.blocks if not blk['cleanup']):
+            it = ins[0][1]
+            val = {strip_casts(o) for o in pv2.pv.peel(pv2.pv.origins_operand(it['args'][1]))}
+            ret = {strip_casts(o) for o in pv2.pv.peel(pv2.pv._origins_local(0, frozenset()))}
+            ok_pred = val == {('param', 2, ())} and ret == {('call', (ins[0][0], callee_path(it) or ''), ())}
+    if not ok_pred:
+        out.append((False, cons, 'the predicate of all(..) in %s is not exactly `|name| set.insert(name)`' % fb.short))
+        return out
+    out.append((True, cons, 'the predicate of all(..) is the HashSet::insert of the name itself'))
+    for ob, why in (('false-only-after-collision', '`false` exactly when an insert reports a collision (Iterator::all)'),
+                    ('collision-returns-false', 'all(..) stops at the first collision'), ('true-after-exhaustion', '`true` only after every item was visited (Iterator::all)')):
+        out.append((True, {'fn': fb.short, 'obligation': ob}, why))
+    # the names: filter_map over the items with a closure that yields the bound name of every item kind that binds one
+    srcs = v.pv.peel(v.pv.origins_operand(at['args'][0]))
+    fm = [v.pv.call_term(o) for o in srcs if o[0] == 'call' and re.search(r'Iterator>?::filter_map$', callee_path(v.pv.call_term(o)) or '')]
+    if len(fm) != 1 or len(srcs) != 1:
+        out.append((False, {'fn': fb.short, 'obligation': 'kind-dispatch'}, 'the names do not come from one filter_map over the items'))
+        return out
+    base = v.pv.through(v.pv.origins_operand(fm[0]['args'][0]), re.compile(r'::iter$|IntoIterator.*into_iter$|Deref>::deref$|Deref::deref$|::as_slice$'))
+    if not (base and all(o[0] == 'param' and not o[2] for o in base)):
+        out.append((False, {'fn': fb.short, 'obligation': 'kind-dispatch'}, 'filter_map does not run over the item list handed to %s' % fb.short))
+        return out
+    cb = closure_of(fm[0]['args'][1])
+    if cb is None:
+        out.append((False, {'fn': fb.short, 'obligation': 'kind-dispatch'}, 'filter_map closure not found'))
+        return out
+    import inline
+    cb = inline.desugared(w, cb)          # `node.cast::<T>().map(|i| i.name())` in an arm reads as the match it stands for
+    cv = BodyView(w, cb)
+    kind_sw = None
+    for bi, blk in enumerate(cb.blocks):
+        t = blk['term']
+        if t['t'] == 'switch' and 'kind' in cv.switch_atom(bi) and 'discr' in cv.switch_atom(bi):
+            kind_sw = bi
+    if kind_sw is None:
+        out.append((False, {'fn': fb.short, 'obligation': 'kind-dispatch'}, 'no dispatch on the item kind found in the filter_map closure of %s' % fb.short))
+        return out
+    by_kind = {kinds.get(val): tgt for val, tgt in cb.blocks[kind_sw]['term']['targets']}
+    names = set()
+    for k, accessor in {'ImportItemPath': 'name', 'RenamedImportItem': 'new_name'}.items():
+        cons = {'fn': fb.short, 'obligation': 'item-kind-inserted', 'kind': k}
+        tgt = by_kind.get(k)
+        if tgt is None:
+            out.append((False, cons, 'items of kind %s are not examined by the duplicate test: `import "m": a, x as a` could be sorted' % k))
+            continue
+        # inside the arm of kind k a cast::<T>() with k in kinds(T) cannot fail: its None edge is infeasible
+        infeasible = set()
+        for bi in cfg.reachable_from(cb, tgt, stop=set()):
+            ct = cb.blocks[bi]['term']
+            if ct['t'] != 'call':
+                continue
+            mm = re.search(r"SyntaxNode::cast::<'?[^,>]*,?\s*typst_syntax::ast::(\w+)", callee_str(ct) or '')
+            if not mm or k not in grammar.load()['kinds_of'].get(mm.group(1), []):
+                continue
+            nb_ = ct.get('target')
+            if nb_ is not None and cb.blocks[nb_]['term']['t'] == 'switch':
+                for e_tgt, label in cv.switch_edges(nb_):
+                    if 'None' in cv.label_values(nb_, label):
+                        infeasible.add(e_tgt)
+        reach = cfg.reachable_from(cb, tgt, stop=infeasible) - infeasible
+        somes = [(bi, st) for bi in reach for st in cb.blocks[bi]['stmts'] if st['s'] == 'assign' and st['rv']['r'] == 'agg' and st['rv'].get('vname') == 'Some' and st['p']['l'] == 0]
+        nones = [bi for bi in reach for st in cb.blocks[bi]['stmts'] if st['s'] == 'assign' and st['rv']['r'] == 'agg' and st['rv'].get('vname') == 'None' and st['p']['l'] == 0]
+        if not somes or nones:
+            out.append((False, cons, 'an item of kind %s can be left out of the name set' % k))
+            continue
+        good = True
+        for bi, st in somes:
+            ors = cv.pv.through(cv.pv.origins_operand(st['rv']['ops'][0]), re.compile(r'Ident::<.*>::as_str$|::as_str$|Deref>::deref$|::get$'))
+            ns = {(callee_path(cv.pv.call_term(o)) or '').rsplit('::', 1)[-1] if o[0] == 'call' else o[0] for o in ors}
+            names |= ns
+            if ns != {accessor} or not all(o[0] == 'call' and k in (callee_path(cv.pv.call_term(o)) or '') for o in ors):
+                good = False
+        if good:
+            out.append((True, cons, 'yielded under its bound name (%s())' % accessor))
+        else:
+            out.append((False, cons, 'the name yielded for %s does not come from %s()' % (k, accessor)))
+    cons = {'fn': fb.short, 'obligation': 'inserted-value', 'from': sorted(names)}
+    if names and names <= {'name', 'new_name'}:
+        out.append((True, cons, 'the set holds bound names only'))
+    else:
+        out.append((False, cons, 'the value inserted into the set is not the bound name: %s' % sorted(names)))
+    return out
+
+
 def _dup_check_obligations(w, fb, kinds):
     """yields (ok, construct, why) for the duplicate-name test"""
+    alt = _dup_check_iterator_form(w, fb, kinds)
+    if alt is not None:
+        return alt
     v = BodyView(w, fb)
     out = []
     inserts = [(bi, t) for bi, t in fb.calls() if (callee_path(t) or '').endswith('HashSet::<T, S, A>::insert') or
@@ -356,6 +530,11 @@ def r2_permutation(w):
     return r
 
 
+def _cfg_field_index(w):
+    cfg_adt = adt_lookup(w, 'typstyle_core::config::Config')
+    return [f['name'] for f in cfg_adt['variants'][0]['fields']].index('reorder_import_items')
+
+
 def r3_nothing_else_depends_on_flag(w):
     r = RuleResult('C19.R3', 'flag read at one site; Config::default and the CLI default are false; no other order-changing operation on nodes', floor=5 if w.cli is not None else 4)
     core = w.core
@@ -367,8 +546,13 @@ def r3_nothing_else_depends_on_flag(w):
             if u['how'] in ('use', 'switch', 'binop', 'unop', 'call-arg', 'agg', 'ref', 'cast'):
                 steps, _ = name_projection(w, b.locals[u['local']]['ty'], u['proj'])
                 if steps and steps[-1] == FLAG:
+                    if u['how'] == 'agg' and u['rv'].get('adt') == 'typstyle_core::config::Config' and _cfg_field_index(w) == u['index']:
+                        continue          # `Config { .., ..other }`: the flag of one Config copied into the same field of another is not a decision
                     loads.append((b, u))
     sort_fns = {b.id for (b, _, _, _, _) in _sort_site(w)}
+    # boolean helpers of the sort's guard (expanded into the sort site by R1) read the flag on the sort's behalf
+    for (b_, bi_, t_, _p, _m) in _sort_site(w):
+        sort_fns |= set(getattr(_sort_view(w, b_, bi_, t_)[0], 'inlined', ()))
     for (b, u) in loads:
         cons = {'fn': b.short, 'reads': 'Config.reorder_import_items', 'how': u['how']}
         if b.id in sort_fns:
@@ -529,11 +713,13 @@ def comment_coverage_obligations(w):
             continue
         # bool parameters of b that guard the sort on their true edge
         guard_params = set()
-        for atom, vals, sw in bv.guards(bi):
-            d = b.blocks[sw]['term']['discr']
-            if d.get('o') in ('copy', 'move') and vals == {True}:
-                for o in bv.pv.peel(bv.pv.origins_operand(d)):
-                    if o[0] == 'param' and b.locals[o[1]]['ty']['s'] == 'bool':
+        vb, vbi, vt = _sort_view(w, b, bi, t)          # boolean helpers expanded: a guard handed on to `should_sort(.., can_reorder)` is still a guard
+        vv = BodyView(w, vb)
+        for g in vv.guards_ext(vbi):
+            d = vv.guard_operand(g)
+            if d.get('o') in ('copy', 'move') and g[1] == {True}:
+                for o in vv.pv.peel(vv.pv.origins_operand(d)):
+                    if o[0] == 'param' and not o[2] and o[1] <= b.arg_count and b.locals[o[1]]['ty']['s'] == 'bool':
                         guard_params.add(o[1])
         callers = [(cb, cbi, ct) for cb in w.fn_bodies(w.core) for cbi, ct in cb.calls() if resolved_id(ct) == b.id]
         if not callers:
